@@ -252,3 +252,39 @@ PROPS["C19"] = dict(
     unverified_links=["rust-bitcoin Transaction decoding", "runtime::call_send_transaction_internal and the await point"],
     assumptions=COMMON_ASSUMPTIONS,
 )
+
+PROPS["C17"] = dict(
+    verus_units=["watchdog"],
+    kani=["watchdog"],
+    engine="kani-inject",
+    technique="modular: Verus contract on median (all N), Kani full-domain proofs of calculate_height_target (band+quorum, median stubbed), compare (target stubbed) and calculate_target per concrete explorer count",
+    level_text="median(values) is proved by Verus for EVERY number of heights to be the middle element of the sorted multiset (mean of the two middle ones for an even count), "
+               "hence order independent; for every explorer count N = 0..=6 and 8 Kani proves on the real code, over fully symbolic heights/thresholds/quorum, that the "
+               "height target is the median iff at least min_explorers heights lie in the band around it; that compare passes exactly the successful fetches and the "
+               "configured thresholds on and maps (canister height, target) to NotEnoughData/Behind/Ahead/Ok as stated; and that the flag target is Enabled exactly for Ok",
+    level_note="heights in [behind threshold, 2^62) (the property's own domain; beyond it the repo's i64 casts wrap); the bound is the CONCRETE number of explorer "
+               "entries, enumerated up to the largest shipped list; composition of the three modular results is by contract (stubs), not re-proved end to end; "
+               "that every provider's slot is overwritten in every round is in async fetch code (not decided)",
+    explanation="std's sort makes a monolithic CBMC proof infeasible beyond 3 elements, hence the modular split with Verus carrying the sort-dependent part.",
+    unverified_links=[
+        "watchdog/src/fetch.rs fetch_all_providers_data (async, join_all) writing every provider's BlockInfo each round; storage::insert_block_info",
+        "synchronise_api_access (async): acts only when target is Some and differs from the canister's flag (by inspection)",
+    ],
+    assumptions=COMMON_ASSUMPTIONS + ["heights < 2^62, thresholds <= 10^6", "slice::sort yields the sorted permutation"],
+)
+
+PROPS["C18"] = dict(
+    verus_units=["watchdog"],
+    technique="Verus contract on endpoints.rs::apply_to_body (the wrapper every transform goes through), closure argument by its requires/ensures",
+    level_text="unbounded deductive proof (any status, any number/size of headers, any body bytes) that apply_to_body returns, with no headers, the original status and a "
+               "body that is empty unless the status is 200 and the body is UTF-8 text, in which case it is exactly the extractor's output for that text",
+    level_note="PARTIAL: apply_to_body_json (closure calling serde_json::from_str / Value::to_string) and the per-endpoint extractors (json! + Index + as_u64, "
+               "text.parse::<u64>()) rest on serde_json / core::str::parse and are not under contract: canonical form of the JSON object, insensitivity to whitespace / "
+               "member order / other members, and totality of the extractors are NOT decided here",
+    explanation="the wrapper guarantees stripping and totality for everything that is not produced by the extractor closure.",
+    unverified_links=[
+        "endpoints.rs::apply_to_body_json and the ten endpoint closures (serde_json)",
+        "candid::Nat comparison with 200u8, String::from_utf8 / into_bytes (assumed specs)",
+    ],
+    assumptions=COMMON_ASSUMPTIONS + ["the extractor closure is total"],
+)
